@@ -270,6 +270,28 @@ fn w_conc_deadlock() -> bool {
     n < 2
 }
 
+fn w_save_prefix() -> bool {
+    use pdf::file::FileOptions;
+    use pdf::object::*;
+    let mut data = vec![b'x'; 300];
+    data.extend_from_slice(&mkpdf(&[(1, CATALOG), (2, PAGES), (3, PAGE), (4, "132")], ""));
+    // mkpdf wrote offsets relative to its own start, i.e. relative to the header: a valid prefixed file
+    let mut file = FileOptions::uncached().load(data).unwrap();
+    file.update(PlainRef { id: 4, gen: 0 }, 777i32).unwrap();
+    let saved = {
+        let path = std::env::temp_dir().join("verif_w_save_prefix.pdf");
+        file.save_to(&path).unwrap();
+        let d = std::fs::read(&path).unwrap();
+        let _ = std::fs::remove_file(&path);
+        d
+    };
+    let re = FileOptions::uncached().load(saved);
+    let r = re.as_ref().map(|f| f.resolver().resolve(PlainRef { id: 4, gen: 0 }).map(|p| format!("{:?}", p)).map_err(|e| e.to_string()))
+        .map_err(|e| e.to_string().chars().take(70).collect::<String>());
+    println!("reload of a saved 300-byte-prefixed file: {:?} (expected Ok(Ok(\"Integer(777)\")))", r);
+    !matches!(r, Ok(Ok(ref s)) if s == "Integer(777)")
+}
+
 fn main() {
     let all: Vec<(&str, fn() -> bool)> = vec![
         ("lzw_predictor", w_lzw_predictor),
@@ -283,6 +305,7 @@ fn main() {
         ("conc_spurious_recursive", w_conc_spurious_recursive),
         ("conc_assert_poison", w_conc_assert_poison),
         ("conc_deadlock", w_conc_deadlock),
+        ("save_prefix", w_save_prefix),
     ];
     let want: Vec<String> = std::env::args().skip(1).collect();
     for (n, f) in all {
